@@ -1,5 +1,5 @@
-import Banyan.Model.Util
+import Banyan.Model.C07Wire
 open Banyan
 
-/- stub: model driver for C06 not built yet -/
-def main : IO Unit := runDriver fun _ => "bad-op"
+/- model driver for C06 (shares the `seg` line protocol with C07) -/
+def main : IO Unit := runDriver SegWire.handle
